@@ -62,6 +62,7 @@ type Clause struct {
 	E     Expr
 	Name  string   // optional label
 	Props []string // optional: properties this clause belongs to (default: all of the function's)
+	Mode  string   // optional: integer model this clause is proved in ("int" | "bv"; default: the function's)
 }
 
 type Contract struct {
@@ -218,6 +219,7 @@ func (sp *Spec) loadFile(path string, pkg string) error {
 			cur.Trusted = true
 		case "requires", "ensures":
 			name := ""
+			cmode := ""
 			var cprops []string
 			if strings.HasPrefix(rest, "[") {
 				j := strings.Index(rest, "]")
@@ -227,12 +229,16 @@ func (sp *Spec) loadFile(path string, pkg string) error {
 					cprops = strings.Fields(strings.ReplaceAll(name[k+1:], ",", " "))
 					name = strings.TrimSpace(name[:k])
 				}
+				if k := strings.Index(name, "%"); k >= 0 {
+					cmode = strings.TrimSpace(name[k+1:])
+					name = strings.TrimSpace(name[:k])
+				}
 			}
 			e, err := parseExpr(rest)
 			if err != nil {
 				return fail(err)
 			}
-			cl := Clause{Text: rest, E: e, Name: name, Props: cprops}
+			cl := Clause{Text: rest, E: e, Name: name, Props: cprops, Mode: cmode}
 			if word == "requires" {
 				cur.Requires = append(cur.Requires, cl)
 			} else {
@@ -528,7 +534,13 @@ func (p *parser) typeStr() string {
 			s += "[]"
 		}
 	}
-	s += p.next().val
+	id := p.next().val
+	s += id
+	if id == "interface" && p.isOp("{") {
+		p.next()
+		p.expect("}")
+		return s + "{}"
+	}
 	if p.isOp(".") {
 		p.next()
 		s += "." + p.next().val
